@@ -19,7 +19,8 @@
  *   everything after a `|` token is an annotation for the oracle and is ignored here.
  *
  *   answer:  ps rc=<return value> n=<callback invocations> log=<code>:<line>,…|- ptr=<ok|bad<k>> cif=<canonical dump|~>
- *            post=<walk rc>,<write rc>,<modify rc>,<destroy rc>|~
+ *            post=<walk rc>,<write rc>,<modify rc>,<destroy rc>|~ [aa=<code>]
+ *   aa (policy d only): the first code an ACCEPT-ALL parse of the same input into an equivalent fresh target reports (0 = none)
  *   (dump: fdump_cif canon=1 with unquoted numbers shown as unquoted character values — M0: → C0: — so that the model need
  *    not decide number syntax; the generator's oracle decides kind from the ORIGINAL dump, printed as kinds=<n> = number of
  *    M0 values.)  `ptr` = every (text, length) handed to the callback with length > 0 lay inside the scan buffer and was read.
@@ -92,6 +93,29 @@ static char *to_cstr(const UChar *u, size_t n) {   /* extra_ws / extra_eol are `
     return c;
 }
 
+/* one call of cif_parse_internal with the scanner set up as cif_parse() does */
+static int run_parse(struct scanner_s *scanner, struct src *source, struct elog *elog, const UChar *units, size_t len,
+        int dia, int mfd, int fold, int prefix, int nutf8, const char *cws, const char *ceol, cif_tp *cif) {
+    memset(scanner, 0, sizeof(*scanner));
+    source->data = units; source->len = len; source->pos = 0;
+    elog->scanner = scanner;
+    /* as cif_parse() */
+    scanner->char_source = source;
+    scanner->read_func = read_units;
+    scanner->at_eof = CIF_FALSE;
+    scanner->cif_version = dia;
+    scanner->line_unfolding = (fold < 1) ? fold : 1;
+    scanner->prefix_removing = (prefix < 1) ? prefix : 1;
+    scanner->max_frame_depth = (mfd < 1) ? mfd : 1;
+    scanner->handler = &no_handler;
+    scanner->error_callback = log_error;
+    scanner->whitespace_callback = NULL;
+    scanner->keyword_callback = NULL;
+    scanner->dataname_callback = NULL;
+    scanner->user_data = elog;
+    return cif_parse_internal(scanner, nutf8, cws, ceol, cif);
+}
+
 static void handle(int argc, char **argv) {
     struct scanner_s scanner;
     struct src source;
@@ -134,25 +158,7 @@ static void handle(int argc, char **argv) {
     cws = nws ? to_cstr(ws, nws) : NULL;
     ceol = neol ? to_cstr(eol, neol) : NULL;
 
-    memset(&scanner, 0, sizeof(scanner));
-    source.data = units; source.len = len; source.pos = 0;
-    elog.scanner = &scanner;
-    /* as cif_parse() */
-    scanner.char_source = &source;
-    scanner.read_func = read_units;
-    scanner.at_eof = CIF_FALSE;
-    scanner.cif_version = dia;
-    scanner.line_unfolding = (fold < 1) ? fold : 1;
-    scanner.prefix_removing = (prefix < 1) ? prefix : 1;
-    scanner.max_frame_depth = (mfd < 1) ? mfd : 1;
-    scanner.handler = &no_handler;
-    scanner.error_callback = log_error;
-    scanner.whitespace_callback = NULL;
-    scanner.keyword_callback = NULL;
-    scanner.dataname_callback = NULL;
-    scanner.user_data = &elog;
-
-    rc = cif_parse_internal(&scanner, nutf8, cws, ceol, cif);
+    rc = run_parse(&scanner, &source, &elog, units, len, dia, mfd, fold, prefix, nutf8, cws, ceol, cif);
 
     OUT("ps rc=%d n=%ld log=", rc, elog.n);
     if (elog.n == 0) OUT("-");
@@ -199,6 +205,23 @@ static void handle(int argc, char **argv) {
             drc = cif_destroy(cif);
             OUT(" post=%d,%d,%d,%d", wrc, orc, mrc, drc);
         }
+    }
+    if (elog.mode == 'd') {
+        struct elog e2;
+        cif_tp *cif2 = NULL;
+        int ok = 1;
+        memset(&e2, 0, sizeof(e2));
+        e2.badptr = -1; e2.mode = 'a';
+        if (target != 'n') {
+            ok = (cif_create(&cif2) == CIF_OK);
+            if (ok && target == 'p') { int pos2 = 12; ok = (build_cif(cif2, argv, end, &pos2) == CIF_OK); }
+        }
+        if (ok) {
+            (void) run_parse(&scanner, &source, &e2, units, len, dia, mfd, fold, prefix, nutf8, cws, ceol, cif2);
+            OUT(" aa=%d", e2.n ? e2.code[0] : 0);
+        } else OUT(" aa=?");
+        if (cif2) cif_destroy(cif2);
+        free(e2.code); free(e2.line);
     }
     free(elog.code);
     free(elog.line);
